@@ -556,8 +556,13 @@ def filter_chain(expr):
         cl = strip(e["args"][0])
         body = cl["body"] if cl["k"] == "Closure" else cl
         c = strip(body)
+        # the closure's own parameter, whatever it is called, is `report`
+        pname = None
+        if cl["k"] == "Closure" and len(cl["inputs"]) == 1:
+            ids = [b["name"] for b in walk(cl["inputs"][0]) if b["k"] == "PIdent"]
+            pname = ids[0] if len(ids) == 1 else None
         if c["k"] == "Call":
-            out.append((render(c["func"]), tuple(render(strip(a)) for a in c["args"])))
+            out.append((render(c["func"]), tuple("report" if pname is not None and render(strip(a)) == pname else ("?" + render(strip(a)) if render(strip(a)) == "report" and pname not in (None, "report") else render(strip(a))) for a in c["args"])))
         else:
             out.append(("?", (render(c),)))
         e = e["recv"]
